@@ -347,6 +347,7 @@ PROPS["C11"] = {
 }
 
 PROPS["C04"] = {
+    "with": ["C11"],  # the fake server process / fake client of the C11 harness
     "level": "exploration",
     "rule": ("Table: every assignment of outcome kind in {pass, assertion failure, client-reported error, setup error, could-not-run, no result from the client, never answered} x marking in {unmarked, known-failing, known-flaky} x peer feedback {absent, present} to 1..N cases (N=2 quick, 3 thorough; 39 rows per case), driven through the real API (newResults, assert/failed/failedToStart/failRemaining/setOutcome, recordSideband, report) with exact-name marking patterns; Random: up to 12 cases. "
              "Oracle: model of the statement for the boolean verdict; accounting: passed + failed + failed-as-expected + could-not-run == selected with every case in exactly the model's counter; every failed / failed-as-expected case is named in a FAILED / INFO line and no passing case is. "
@@ -359,6 +360,8 @@ PROPS["C04"] = {
          "shards": {"quick": 4, "thorough": 16}, "env_tier": {"quick": {"VERIF_C04_CASES": 3}, "thorough": {"VERIF_C04_CASES": 4}}},
         {"name": "C04Random", "pkg": CC, "test": "TestVerifC04Random", "kind": "rapid",
          "checks": {"quick": 20000, "thorough": 300000}, "shards": {"quick": 2, "thorough": 8}},
+        # feedback that reaches the runner through a reference server's stderr (terminated or not, before or after the answer)
+        {"name": "C04Sideband", "pkg": CC, "test": "TestVerifC04Sideband", "kind": "enum"},
         {"name": "C04FateTable", "pkg": CC, "test": "TestVerifC04FateTable", "kind": "enum", "shards": {"quick": 4, "thorough": 4}, "timeout": 900},
         {"name": "C04Fate", "pkg": CC, "test": "TestVerifC04Fate", "kind": "rapid",
          "checks": {"quick": 12, "thorough": 150}, "shards": {"quick": 4, "thorough": 16}, "timeout": {"quick": 900, "thorough": 5400}},
